@@ -392,65 +392,121 @@ def _calls_in_order(fn, pred):
     return sorted(out, key=lambda n: (n.lineno, n.col_offset))
 
 
+def _locals_of(fn):
+    """names bound inside a function: parameters, assignment / loop / comprehension / with targets, lambda args"""
+    names = set()
+    for n in ast.walk(fn):
+        if isinstance(n, ast.arg):
+            names.add(n.arg)
+        elif isinstance(n, ast.Name) and isinstance(n.ctx, (ast.Store, ast.Del)):
+            names.add(n.id)
+    return names
+
+
+def _norm_text(node, local_names):
+    """source text of a node with every locally bound name replaced by `_` (robust against renaming locals)"""
+    import copy
+
+    class R(ast.NodeTransformer):
+        def visit_Name(self, n):
+            return ast.copy_location(ast.Name(id="_", ctx=n.ctx), n) if n.id in local_names else n
+
+        def visit_arg(self, n):
+            n.arg = "_" if n.arg in local_names else n.arg
+            return n
+    return ast.unparse(R().visit(copy.deepcopy(node)))
+
+
+def _guarded(fn, pred, local_names):
+    """calls satisfying pred grouped by the `if` guards on their path; source order kept inside a group, the groups
+    themselves sorted (robust against swapping the arms of an if/else)"""
+    groups = {}
+
+    def neg(t):
+        return t[4:] if t.startswith("not ") else "not " + t
+
+    def walk(stmts, guard):
+        for st in stmts:
+            if isinstance(st, ast.If):
+                t = _norm_text(st.test, local_names)
+                walk(st.body, guard + [t])
+                walk(st.orelse, guard + [neg(t)])
+                continue
+            for c in _calls_in_order(st, pred) if not isinstance(st, (ast.For, ast.While, ast.With, ast.Try)) else []:
+                groups.setdefault(" and ".join(sorted(guard)), []).append(_norm_text(c.args[0], local_names))
+            for field in ("body", "orelse", "finalbody"):
+                if isinstance(st, (ast.For, ast.While, ast.With, ast.Try)):
+                    walk(getattr(st, field, []) or [], guard)
+    walk(fn.body, [])
+    return sorted(k + " => " + " | ".join(v) for k, v in groups.items())
+
+
 def item_excel_layout(repo):
-    """C09: the skeleton of the openpyxl writer / reader that the Grid model mirrors (source text, via ast)."""
+    """C09: the skeleton of the openpyxl writer / reader that the Grid model mirrors.  Source text via ast with
+    locally bound names blanked (`_`), statement multisets sorted: renaming locals, reordering independent statements
+    and swapping if/else arms leave the item unchanged."""
     tree = _parse(repo, "pdtable/io/_excel_openpyxl.py")
     helper = _parse(repo, "pdtable/io/_excel_write_helper.py")
     excel = _parse(repo, "pdtable/io/excel.py")
-    # _append_table_to_openpyxl_worksheet: what is appended, in source order
+    # _append_table_to_openpyxl_worksheet: what is appended to the worksheet, per branch, in order
     app = _find_func(tree, "_append_table_to_openpyxl_worksheet")
-    appended = [ast.unparse(c.args[0]) for c in _calls_in_order(
-        app, lambda c: isinstance(c.func, ast.Attribute) and c.func.attr == "append"
-        and ast.unparse(c.func.value) == "ws")]
-    # _style_tables_in_worksheet: offsets and the index arithmetic
+    la = _locals_of(app)
+    ws_param = app.args.args[1].arg
+    appended = _guarded(app, lambda c: isinstance(c.func, ast.Attribute) and c.func.attr == "append"
+                        and ast.unparse(c.func.value) == ws_param, la)
+    # _style_tables_in_worksheet: integer constants and every assignment statement (the index arithmetic)
     st = _find_func(tree, "_style_tables_in_worksheet")
-    ints, exprs = {}, {}
-    for n in ast.walk(st):
-        if isinstance(n, ast.Assign) and len(n.targets) == 1:
-            tgt = ast.unparse(n.targets[0]).strip("()")
-            if isinstance(n.value, ast.Constant) and isinstance(n.value.value, int) and tgt.startswith("num_"):
-                ints[tgt] = n.value.value
-            if tgt in ("true_num_cols", "true_num_rows", "table_rows", "table_name_cells", "destination_cells",
-                       "column_name_cells", "column_unit_cells", "value_cells", "true_num_cols, true_num_rows"):
-                exprs.setdefault(tgt, []).append(ast.unparse(n.value))
-        if isinstance(n, ast.AugAssign) and ast.unparse(n.target) == "i_start":
-            exprs.setdefault("i_start +=", []).append(ast.unparse(n.value))
-    # _style_cells: the cell attributes the loop assigns
+    ls = _locals_of(st)
+    ints = sorted(n.value.value for n in ast.walk(st) if isinstance(n, ast.Assign)
+                  and isinstance(n.value, ast.Constant) and type(n.value.value) is int)
+    stmts = sorted(_norm_text(n, ls) for n in ast.walk(st) if isinstance(n, (ast.Assign, ast.AugAssign))
+                   and not isinstance(n.value, ast.Constant))
+    # _style_cells: the attributes assigned on the loop variable(s); any `.value` store in the module
     sc = _find_func(tree, "_style_cells")
-    writes = []
-    for n in ast.walk(sc):
-        if isinstance(n, (ast.Assign, ast.AugAssign, ast.AnnAssign)):
-            for t in (n.targets if isinstance(n, ast.Assign) else [n.target]):
-                if isinstance(t, ast.Attribute) and ast.unparse(t.value) == "cell":
-                    writes.append(t.attr)
-    # any other place of the module assigning `.value` of something
-    value_writes = sorted({ast.unparse(t) for n in ast.walk(tree) if isinstance(n, ast.Assign)
-                           for t in n.targets if isinstance(t, ast.Attribute) and t.attr == "value"})
+    loop_vars = {t.id for n in ast.walk(sc) if isinstance(n, ast.For) for t in ast.walk(n.target)
+                 if isinstance(t, ast.Name)}
+    writes = sorted({t.attr for n in ast.walk(sc) if isinstance(n, (ast.Assign, ast.AugAssign, ast.AnnAssign))
+                     for t in (n.targets if isinstance(n, ast.Assign) else [n.target])
+                     if isinstance(t, ast.Attribute) and isinstance(t.value, ast.Name) and t.value.id in loop_vars})
+    value_writes = sorted({_norm_text(t, set()) for n in ast.walk(tree)
+                           if isinstance(n, (ast.Assign, ast.AugAssign, ast.AnnAssign))
+                           for t in (n.targets if isinstance(n, ast.Assign) else [n.target])
+                           if isinstance(t, ast.Attribute) and t.attr in ("value", "_value")})
     # read_sheets: what is iterated and what is yielded
     rs = _find_func(tree, "read_sheets")
-    iters = [ast.unparse(n.iter) for n in ast.walk(rs) if isinstance(n, ast.For)]
-    yields = [ast.unparse(n.value) for n in ast.walk(rs) if isinstance(n, ast.Yield)]
-    # write_excel_openpyxl: the sheet loop
+    lr = _locals_of(rs)
+    iters = [_norm_text(n.iter, lr) for n in ast.walk(rs) if isinstance(n, ast.For)]
+    yields = [_norm_text(n.value, lr) for n in ast.walk(rs) if isinstance(n, ast.Yield)]
+    # write_excel_openpyxl: the loop that creates the sheets
     wx = _find_func(tree, "write_excel_openpyxl")
-    wloops = [ast.unparse(n.iter) for n in ast.walk(wx) if isinstance(n, ast.For)]
-    dims = [ast.unparse(c.args[0]) for c in _calls_in_order(
-        wx, lambda c: isinstance(c.func, ast.Attribute) and c.func.attr == "append"
-        and ast.unparse(c.func.value) == "table_dimensions")]
-    # helpers: header f-strings and the destination join
+    lw = _locals_of(wx)
+    wloops = [_norm_text(n.iter, lw) for n in ast.walk(wx) if isinstance(n, ast.For)
+              and any(isinstance(c, ast.Call) and isinstance(c.func, ast.Attribute) and c.func.attr == "create_sheet"
+                      for c in ast.walk(n))]
+    # helpers: header f-strings per branch and the destination join
     hd = _find_func(helper, "_table_header")
-    headers = [ast.unparse(n.value) for n in ast.walk(hd) if isinstance(n, ast.Return)]
-    headers_test = [ast.unparse(n.test) for n in ast.walk(hd) if isinstance(n, ast.If)]
+    lh = _locals_of(hd)
+    headers = []
+
+    def hwalk(stmts, guard):
+        for x in stmts:
+            if isinstance(x, ast.If):
+                t = _norm_text(x.test, lh)
+                hwalk(x.body, guard + [t])
+                hwalk(x.orelse, guard + [t[4:] if t.startswith("not ") else "not " + t])
+            elif isinstance(x, ast.Return):
+                headers.append(" and ".join(sorted(guard)) + " => " + _norm_text(x.value, lh))
+    hwalk(hd.body, [])
     dj = _find_func(helper, "_table_destinations")
-    dest = [ast.unparse(n.value) for n in ast.walk(dj) if isinstance(n, ast.Return)]
+    dest = [_norm_text(n.value, _locals_of(dj)) for n in ast.walk(dj) if isinstance(n, ast.Return)]
     # read_excel: how the sheet-name pattern is applied
     rx = _find_func(excel, "read_excel")
     nm = _find_func(rx, "name_matches")
-    pattern_calls = [ast.unparse(c) for c in _calls_in_order(
+    pattern_calls = [_norm_text(c, _locals_of(nm)) for c in _calls_in_order(
         nm, lambda c: isinstance(c.func, ast.Attribute) and ast.unparse(c.func.value) == "sheet_name_pattern")]
-    return {"appended": appended, "ints": sorted(ints.items()), "exprs": sorted((k, v) for k, v in exprs.items()),
-            "style_writes": sorted(set(writes)), "value_writes": value_writes, "read_iters": iters,
-            "read_yields": yields, "write_loops": wloops, "dims": dims, "headers": headers,
-            "headers_test": headers_test, "dest": dest, "pattern_calls": pattern_calls}
+    return {"appended": appended, "ints": ints, "stmts": stmts, "style_writes": writes,
+            "value_writes": value_writes, "read_iters": iters, "read_yields": yields, "write_loops": wloops,
+            "headers": sorted(headers), "dest": dest, "pattern_calls": pattern_calls}
 
 
 ITEMS = {
@@ -592,19 +648,16 @@ def render(vals) -> str:
     L.append("")
     ex = vals["excel_layout"]
     sl = lambda xs: "[" + ", ".join(lean_str(x) for x in xs) + "]"
-    L.append("/-- C09: skeleton of the openpyxl writer / reader (source text of the relevant expressions) -/")
+    L.append("/-- C09: skeleton of the openpyxl writer / reader (normalised source text: local names blanked) -/")
     L.append(f"def excelAppended : List String := {sl(ex['appended'])}")
-    L.append("def excelInts : List (String × Nat) := [" + ", ".join(f"({lean_str(k)}, {int(v)})" for k, v in ex["ints"]) + "]")
-    L.append("def excelExprs : List (String × List String) := [" + ", ".join(
-        f"({lean_str(k)}, {sl(v)})" for k, v in ex["exprs"]) + "]")
+    L.append("def excelInts : List Nat := [" + ", ".join(str(int(v)) for v in ex["ints"]) + "]")
+    L.append(f"def excelStyleStmts : List String := {sl(ex['stmts'])}")
     L.append(f"def excelStyleWrites : List String := {sl(ex['style_writes'])}")
     L.append(f"def excelValueWrites : List String := {sl(ex['value_writes'])}")
     L.append(f"def excelReadIters : List String := {sl(ex['read_iters'])}")
     L.append(f"def excelReadYields : List String := {sl(ex['read_yields'])}")
     L.append(f"def excelWriteLoops : List String := {sl(ex['write_loops'])}")
-    L.append(f"def excelDims : List String := {sl(ex['dims'])}")
     L.append(f"def excelHeaders : List String := {sl(ex['headers'])}")
-    L.append(f"def excelHeadersTest : List String := {sl(ex['headers_test'])}")
     L.append(f"def excelDest : List String := {sl(ex['dest'])}")
     L.append(f"def excelPatternCalls : List String := {sl(ex['pattern_calls'])}")
     L.append("")
